@@ -142,6 +142,46 @@ TEXT = {
              "its prior state or exactly the complete content, no temp file after an in-process failure, value pulls never Ok on truncation.",
         note="Power-loss durability is out of reach (a process kill keeps the page cache); fsync ordering is decided by the strace specification only. strace unavailable => that stage is inconclusive.",
         ref="DESIGN.md §4 C10"),
+    "C05": dict(
+        technique="runtime monitor over recorded raw byte streams (independent sequential frame parser, content patterns, conservation) under stalls, write timeouts and cancellation",
+        text="Runtime monitoring: scripted raw peers record every byte written by the six endpoints (blocking, async and WebSocket client; blocking, "
+             "async and WebSocket server incl. pushed notifies) under up to 32 concurrent writers, payload sizes straddling every buffer size (0 B to "
+             "4 MiB quick / 32 MiB thorough), seeded read stalls with small socket buffers, configured write timeouts and calls aborted mid-send; after "
+             "every interruption the peer drains and FURTHER traffic is issued. Oracle: the stream must be whole frames plus at most one strict "
+             "prefix of one frame with nothing after it, every frame byte-equal to one submitted message (bodies are a function of token and "
+             "offset), sends that reported success are whole on the wire, each WebSocket message is exactly one frame. Found and fixed D3, D4, D5.",
+        note="WebSocket streams are observed as messages; client send buffers autotune (fault payloads sized 12-32 MiB for a 4 MiB tcp_wmem).",
+        ref="DESIGN.md §4 C05"),
+    "C15": dict(
+        technique="fault enumeration (exit cause x phase x entry point table) with raw WebSocket peers; offline oracle over a globally sequenced callback/probe/frame log",
+        text="Runtime monitoring with enumerated faults: 204 meaningful cells of exit cause (clean close, TCP drop, RST, text frame, corrupt "
+             "WebSocket frame, malformed REPE frame, handler panic, connect-callback panic, token cancel, graceful drain, drain-deadline abort) x "
+             "phase (idle, inline handler gated, off-reader handler parked, outbound queue full, inside connect callback) x serving entry point "
+             "(serve_listener, graceful drain, accept+serve_connection(_with_cancel), adopt_upgraded) plus failed handshakes, each with 1..32 "
+             "concurrent connections and bystanders. The oracle checks exactly-once disconnect after connect, no callbacks for failed handshakes, "
+             "registry/alias presence windows by sequence number, connect-queued notifies before any response on the wire, and cancellation observed by "
+             "parked handlers; liveness is bounded progress (15 s, heartbeat-gated).",
+        note="96 cells are meaningless combinations and are skipped with a counted reason. Inline handlers cannot observe a client-side disconnect (reader blocked).",
+        ref="DESIGN.md §4 C15"),
+    "C16": dict(
+        technique="runtime monitor with RAII gauge inside handlers, gated handlers and ordering evidence at a raw WebSocket peer; release orders enumerated for small caps",
+        text="Runtime monitoring: WebSocketServer with caps 1..16, default and unlimited; blocking routes of five kinds behind 0..2 middlewares count "
+             "themselves in a per-connection gauge and park on gates; a raw peer pipelines up to 4x cap requests/notifies with inline pings, releases "
+             "handlers one by one (every outcome assignment x release order for caps <= 3), mixes return/error/panic. Oracle: gauge maximum <= cap; "
+             "over-cap requests answered with code 8 and pings answered BEFORE any gate is opened (ordering, not latency); over-cap notifies run no "
+             "handler and produce no frame; panic -> code 9 with the request id, connection unaffected; every slot recovered (bounded retries).",
+        note="A released handler that never returns is inconclusive (only harness code and the scheduler lie between gate and return).",
+        ref="DESIGN.md §4 C16"),
+    "C17": dict(
+        technique="runtime monitor: size log at raw WebSocket peers over exact boundary sizes on every outbound path; byte-identity oracle for messages within the limit",
+        text="Runtime monitoring: limits {1 KiB, 4 KiB, 64 KiB, 1 MiB, none; 16 MiB thorough} x message sizes limit-2..limit+2 (solved exactly from "
+             "48 + query + body) and random x seven outbound paths (inline response, off-reader response, handler-pushed notify, registry broadcast, "
+             "proxy-forwarded response, client request, client notify, with their body-format variants). Raw peers log every binary message size; "
+             "no message above the limit may be observed, oversized responses are replaced by code 9 with the same id, oversized notifies are "
+             "dropped and reported, oversized client messages fail locally with MessageTooLarge and nothing is sent, the connection serves a "
+             "follow-up call, and messages at or below the limit arrive byte-identical to the spec frame.",
+        note="WasmClient is out of scope (wasm32 only).",
+        ref="DESIGN.md §4 C17"),
 }
 
 ALL = [f"C{i:02d}" for i in range(1, 20)]
